@@ -136,6 +136,14 @@ M = [
      "            child->mem_usage(level + 1, mem_stat);",
      "            child->mem_usage(level, mem_stat);",
      "mem_usage counts a next-layer root at the level of the linking border"),
+    ("m14c", "C14", "include/thread_info_table.h",
+     "        for (auto&& elem : thread_info_table_) {\n            if (elem.gain_the_right()) {",
+     "        for (std::uint8_t idx = 0; idx < static_cast<std::uint8_t>(thread_info_table_.size()); ++idx) {\n            auto& elem = thread_info_table_.at(idx);\n            if (elem.gain_the_right()) {",
+     "assign_thread_info indexes the slot table with 8 bits: only 300 mod 256 = 44 of the default 300 slots are usable (capacities 1-3 unaffected)"),
+    ("m09b", "C09", "include/base_node.h",
+     "            if (p == check) { return p; }\n            p->version_unlock();\n            p = check;",
+     "            if (p == check) { return p; }\n            p = check;",
+     "lock_parent does not release the lock of a node that is no longer the parent"),
 ]
 
 
